@@ -226,7 +226,7 @@ def c05_opts(rng):
 
 
 def c06_opts(rng):
-    return ({"nhosts": [0, 1, 2, 3, 5, 8, 12]}, {"depth": [0, 1], "nfilters": [0, 0, 1], "sort": 0.8, "limit": 0.7, "offset": 0.5, "formats": ["json", "wrapped_json"], "colheaders": 0.1, "near_default_p": 0.7, "tables": ["hosts", "services", "services", "hostgroups", "comments", "servicesbygroup"]})
+    return ({"nhosts": [0, 1, 2, 3, 5, 8, 12]}, {"depth": [0, 1], "nfilters": [0, 0, 1], "sort": 0.8, "limit": 0.7, "offset": 0.5, "formats": ["json", "wrapped_json"], "colheaders": 0.1, "near_default_p": 0.7, "index_window_p": 0.12, "tables": ["hosts", "services", "services", "hostgroups", "comments", "servicesbygroup"]})
 
 
 def c07_opts(rng):
@@ -245,7 +245,7 @@ def c04_opts(rng):
 
 
 def c17_opts(rng):
-    return ({}, {"depth": [0, 1, 2, 3], "both_modes": True, "sort": 0.4, "limit": 0.3, "offset": 0.2, "authuser": 0.1, "index_p": 0.2})
+    return ({}, {"depth": [0, 1, 2, 3], "both_modes": True, "sort": 0.4, "limit": 0.3, "offset": 0.2, "authuser": 0.1, "index_p": 0.2, "wait_p": 0.12})
 
 
 QUERY_ASSUMPTIONS = ["strings inside the declared alphabet (ASCII + Latin-1 letters)", "regular expressions inside the reference subset; others are reported unsupported and not compared",
